@@ -19,6 +19,9 @@ pub fn label_expr(e: &OpeningHoursExpression, case: &mut Case) -> u32 {
     if e.rules.len() > 100 {
         case.label("more_than_100_rules");
     }
+    if e.rules.len() >= 2 && e.rules.iter().all(|r| r.time_selector.time.is_empty() && r.day_selector.weekday.is_empty()) {
+        case.label("only_full_day_rules_without_weekdays");
+    }
     let longest = e
         .rules
         .iter()
